@@ -28,8 +28,8 @@ theorem vsFindValueMin_refines (s : State F) (fuel n : Nat) (hv : VS s n) (hrun 
       r.fa = s.fa ∧ r.ia = s.ia := by
   have hb : Gen.IL.vsFindValueMin.body = .seq (.setF "ret0" (minvE "node_id")) .ret := rfl
   simp only [Prog.run, hb]
-  rw [exec_seq, exec_setF _ _ _ _ (minvE_ok s n hv _ hp)]
-  simp only [hrun, if_true, exec_ret, setS_same, minvE_eval s n hv, and_self]
+  rw [exec_seq, exec_setF _ _ _ _ (minvE_ok s n hv.shpV _ (inRange_ptr n _ hp hv.pos))]
+  simp only [hrun, if_true, exec_ret, setS_same, minvE_eval s n hv.shpV, and_self]
 
 /-! ### `_tree_minimum` -/
 
